@@ -548,13 +548,19 @@ func (p *PX) instrs(fr *pxFrame, b *ssa.BasicBlock, from int, st *pxState, k pxC
 			if al, ok := x.Addr.(*ssa.Alloc); ok {
 				st.vals[p.reg(fr, al)+"*"] = p.term(x.Val, fr, st)
 			}
+			p.structStore(x, st)
 			if fa, ok := x.Addr.(*ssa.FieldAddr); ok {
 				vt := p.term(x.Val, fr, st)
 				if al, isLocal := fa.X.(*ssa.Alloc); isLocal {
 					st.vals[fmt.Sprintf("%s.%d", p.reg(fr, al), fa.Field)] = vt
 				}
 				p.bumpField(fieldID(fa), st)
-				if vt.K == TPure && vt.Name == "append" {
+				// the value stays readable under the field's NEW version: any later store to
+				// this field of any object of the type (direct, in a summarised loop, or by a
+				// callee that is not stepped into) advances the version, so a load finds the
+				// value only while nothing can have overwritten it — whichever frame holds
+				// the pointer (struct-carried state handed to helpers by address)
+				if p.fieldCellTracked(fa, vt, fr, st) {
 					st.vals["mem:"+p.fieldLoadKey(fa, fr, st)] = vt
 				}
 				st.trace = append(st.trace, pxEvent{Kind: "fieldstore", Frame: fr, Args: []*Term{vt}, Env: st.env, Pos: p.w.instrPos(x), Extra: fieldID(fa)})
@@ -641,6 +647,10 @@ func (p *PX) instrs(fr *pxFrame, b *ssa.BasicBlock, from int, st *pxState, k pxC
 			p.cur, p.curFrame = st, fr
 			te, tok := p.f.refine(st.env, c, true)
 			fe, fok := p.f.refine(st.env, c, false)
+			if isNil, known := p.nilTest(c); known {
+				// `err != nil` on a value the path built with a constructor that never returns nil
+				tok, fok = tok && isNil, fok && !isNil
+			}
 			if v, ok := st.env[c.key]; ok && len(v) == 1 && v[0].Lo.Cmp(v[0].Hi) == 0 {
 				if v[0].Lo.Sign() == 0 {
 					tok = false
